@@ -319,16 +319,22 @@ CHECKS = {
              'utils.move_dimensions_to_end, Convention.ravel): given any sequence of segments (any length, each naming a valid cell) the '
              'transect dataset lists linear_index and [start, end] of segment s in row s, carries the depth coordinate and given depth bounds '
              'unchanged, and column s of the prepared data holds, at every depth and record, the value of segment s\'s own cell (bit for bit), '
-             'for 4 conventions x 4 dimension layouts, all extents symbolic. BOUNDED (native, not proved): Transect.segments, points, '
-             'distance_along_line and _intersect_polygon are driven by shapely intersections, an STRtree query, cartopy projections and '
-             'a sort on floating-point distances -- outside the verifier; 60 transects (5 datasets incl. a 1 km grid, 12 polylines: '
+             'for 4 conventions x 4 dimension layouts, all extents symbolic. Also PROVED, against abstract geometry (shapely set operations '
+             'as uninterpreted terms: SH-INTERSECTION, SH-STRTREE-QUERY; PY-SORTED): the real bodies of Transect.segments and '
+             '_intersect_polygon -- the loop runs over exactly the cells whose polygon intersects the path; every line part of polygon(cell) '
+             'intersected with the path, and nothing else (point contacts dropped), gives exactly one segment; that segment carries the piece itself, the '
+             'cell\'s linear and native index and polygon, its two ends as start / end point with their distances along the path, start <= end; '
+             'the list is sorted ascending by (start_distance, end_distance); no segments iff no cell intersects (FOREACH / COLLECT loop rule, '
+             'any number of cells and pieces). BOUNDED (native, not proved): what the geometry terms denote -- shapely intersections, '
+             'cartopy projections, Transect.points and distance_along_line, floating-point distances -- is outside the verifier; 60 transects (5 datasets incl. a 1 km grid, 12 polylines: '
              'through, inside one cell, leaving and re-entering a cell, over holes, along a cell edge, missing the model, every heading) are '
              'checked against shapely / pyproj oracles: each piece lies in its cell and on the path, names that cell, pieces add up to the '
              'path inside the union of cells (1e-9), path order by projection, start <= end, distances within the path.',
-        note=TRUST + 'Assumed: contract of Transect.segments / points (bounded native only), C03 ravel, XR-ISEL-POINTWISE, NP-FROMITER-SUBARRAY. '
+        note=TRUST + 'Assumed: contract of Transect.segments (for the data pairing; its routing is proved separately, see above) / points / distance_along_line '
+             '(bounded native only), SH-INTERSECTION (kinds, parts and emptiness of polygon.intersection(line)), SH-STRTREE-QUERY, PY-SORTED, C03 ravel / wind_index, XR-ISEL-POINTWISE, NP-FROMITER-SUBARRAY. '
              'The optional cfunits import is satisfied by harness/stubs/cfunits (axis labels only). Genuine defect found and fixed: distances '
              'measured from the CRS origin although the reference vertex projects ~7 km off it (segments out of path order on fine grids).',
-        technique='AST-generated verification conditions over the real source for the segment / data pairing against an abstract segment sequence, z3; segment geometry by bounded native comparison with shapely / pyproj oracles (not proved)',
+        technique='AST-generated verification conditions over the real source, z3: segment / data pairing against an abstract segment sequence, and segment construction (Transect.segments, _intersect_polygon) against abstract geometry terms with a FOREACH / COLLECT loop rule; what the geometry denotes by bounded native comparison with shapely / pyproj oracles (not proved)',
         design_ref='Part III C18'),
 }
 
